@@ -7,12 +7,17 @@
   the value moved by `d` ns.  `Res.panic` would be an overflow trap / `abs` of `i64::MIN`.
   Specification (Spec/RoundSpec.lean): `truncSpec s p = s − s mod p`, `upSpec s p = s + (−s) mod p`
   (Euclidean `mod`), `roundSpec` = the nearer of the two, a tie going up.
+
+  The first part of the file is about that integer part (`trunc_spec` … `datetime_spec`); the section
+  "The returned value" composes it with C02 (stamps), C03/C07 (`original ± TimeDelta`) and C04
+  (`overflowing_naive_local`) into statements about the value the call returns
+  (`naive_result`, `zoned_result`, `…_properties`).
 -/
-import Chrono.Proofs.RoundCorL
+import Chrono.Proofs.RoundDtL
 
 namespace Chrono.Props.C17
 open Chrono Chrono.M Chrono.M.Round Chrono.Spec Chrono.Spec.Round Chrono.Proofs.RoundL
-open Chrono.Extracted.Round
+open Chrono.Extracted.Round Chrono.Proofs.RoundDt
 
 /-- the data read from src/round.rs on this run is what the theorems below are about: the guard is
 `span <= 0` in all three functions, a tie goes up (`delta_up <= delta_down`) in `duration_round` and in
@@ -150,6 +155,174 @@ example : DInv ⟨86400, 0⟩ ∧ DInv ⟨9223372036, 854775808⟩ ∧
     on_datetime .trunc 9223372036 854775807 0 ⟨9223372036, 854775808⟩ = .ok (.err .DurationExceedsLimit) ∧
     on_datetime .up 9223372036 854775807 0 ⟨86400, 0⟩ = .ok (.ok 763145224193) ∧
     ¬ InI64 (9223372036854775807 + 763145224193) := by decide
+
+/-! ### The returned value (NaiveDateTime and DateTime<FixedOffset>)
+
+`naive_duration` / `zoned_duration` (Model/RoundDT.lean; driver ops `rd.n.*` / `rd.z.*`) are the
+whole calls: span guard, `timestamp_nanos_opt` of the (wall-clock) reading, the integer part above,
+and `Ok(original)` / `original + TimeDelta::nanoseconds(d)` / `original - TimeDelta::nanoseconds(-d)`
+with the operator models of C03.  `instNs v` is the nanosecond timestamp of a value (C02),
+`wallNs z = instNs z.utc + z.off·10⁹` that of the wall clock of a zone-aware value.  Every case below
+is an equation `… = .ok …`: in particular no step of the call panics. -/
+
+/-- the value-level functions run the integer path (`on_datetime`, what the theorems above and the
+driver ops `rd.trunc/round/up` are about) on the stamp of the reading, then `finish`: pass an error
+on, or move `original` by the signed count (`apply_move`) -/
+theorem value_level_runs_integer_path (op : Op) (dt : NaiveDT) (z : Zoned) (dur : Delta)
+    (hdt : NDTInv dt) (hz : ZInv z) :
+    naive_duration op dt dur =
+      finish NaiveDT.add NaiveDT.sub dt (on_datetime op (instSecs dt) dt.time.frac 0 dur) ∧
+    zoned_duration op z dur =
+      finish Zoned.add Zoned.sub z (on_datetime op (instSecs z.utc) z.utc.time.frac z.off dur) := by
+  constructor
+  · exact generic_eq op dt ⟨((Chrono.Proofs.dateInv_iff dt.date).mp hdt.1).1, hdt.2⟩ dt _ _ dur
+  · obtain ⟨l, hl, hext, hsecs, hfrac, _, _⟩ := Chrono.Proofs.naive_local_spec z hz
+    unfold zoned_duration
+    rw [hl]
+    simp only []
+    rw [generic_eq op l hext z _ _ dur, hsecs, hfrac]
+    unfold on_datetime wall_stamp wallSecs
+    rw [Int.add_zero]
+
+/-- **`NaiveDateTime`, every valid value outside a leap second, every valid `TimeDelta`.**  The call
+returns `Err(DurationExceedsLimit)` exactly when the duration is not in `1 ..= i64::MAX` ns, else
+`Err(TimestampExceedsLimit)` exactly when the value's nanosecond timestamp is not an `i64`, else
+`Ok(v)` with `v` a valid non-leap value whose timestamp is the specified multiple — also as the
+crate's own `timestamp_nanos_opt` reads it back. -/
+theorem naive_result (op : Op) (dt : NaiveDT) (dur : Delta) (hdt : NDTInv dt) (hnl : NonLeap dt)
+    (hd : DInv dur) :
+    (ns dur ≤ 0 ∨ 9223372036854775807 < ns dur →
+      naive_duration op dt dur = .ok (.err .DurationExceedsLimit)) ∧
+    (0 < ns dur ∧ ns dur ≤ 9223372036854775807 → ¬ InI64 (instNs dt) →
+      naive_duration op dt dur = .ok (.err .TimestampExceedsLimit)) ∧
+    (0 < ns dur ∧ ns dur ≤ 9223372036854775807 → InI64 (instNs dt) →
+      ∃ v, naive_duration op dt dur = .ok (.ok v) ∧ NDTInv v ∧ NonLeap v ∧
+        instNs v = specOf (kindOf op) (instNs dt) (ns dur) ∧
+        NaiveDT.timestamp_nanos_opt v = .ok (if InI64 (instNs v) then some (instNs v) else none)) := by
+  obtain ⟨e1, e2, e3⟩ := naive_eval op dt dur hdt hd
+  have hiff := stampOk_strict dt (strict_of_nonleap dt hdt hnl)
+  refine ⟨e1, fun hg hno => e2 hg (fun h => hno (hiff.mp h)), ?_⟩
+  intro hg hin
+  obtain ⟨x, hx, hm, _⟩ := e3 hg (hiff.mpr hin)
+  obtain ⟨a, b, c⟩ := moved_nonleap dt x _ hnl hm
+  exact ⟨x, hx, a, b, by rw [c]; omega, stamp_of_result x a (strict_of_nonleap x a b)⟩
+
+/-- **`DateTime<FixedOffset>`** (any offset of less than a day, `Utc` = offset 0), UTC reading valid
+and outside a leap second: the same with the WALL-CLOCK timestamp `wallNs` in place of the
+timestamp; the returned value keeps the offset; its UTC reading is valid and non-leap.  The wall
+clock may lie outside chrono's date range (`MIN_UTC` viewed at a negative offset): that is a
+`TimestampExceedsLimit`, not a panic. -/
+theorem zoned_result (op : Op) (z : Zoned) (dur : Delta) (hz : ZInv z) (hnl : NonLeap z.utc)
+    (hd : DInv dur) :
+    (ns dur ≤ 0 ∨ 9223372036854775807 < ns dur →
+      zoned_duration op z dur = .ok (.err .DurationExceedsLimit)) ∧
+    (0 < ns dur ∧ ns dur ≤ 9223372036854775807 → ¬ InI64 (wallNs z) →
+      zoned_duration op z dur = .ok (.err .TimestampExceedsLimit)) ∧
+    (0 < ns dur ∧ ns dur ≤ 9223372036854775807 → InI64 (wallNs z) →
+      ∃ v, zoned_duration op z dur = .ok (.ok v) ∧ v.off = z.off ∧ ZInv v ∧ NonLeap v.utc ∧
+        wallNs v = specOf (kindOf op) (wallNs z) (ns dur)) := by
+  obtain ⟨e1, e2, e3⟩ := zoned_eval op z dur hz hd
+  have hf := hz.1.2.2.2
+  have hwall : wallSecs z * 1000000000 + z.utc.time.frac = wallNs z := by
+    unfold wallSecs wallNs instNs; omega
+  have hiff : stampOk (wallSecs z) z.utc.time.frac ↔ InI64 (wallNs z) := by
+    rw [stampOk_nonleap _ _ hf.1 hnl, hwall]
+  refine ⟨e1, fun hg hno => e2 hg (fun h => hno (hiff.mp h)), ?_⟩
+  intro hg hin
+  obtain ⟨x, hx, hm, _⟩ := e3 hg (hiff.mpr hin)
+  obtain ⟨a, b, c⟩ := moved_nonleap z.utc x _ hnl hm
+  refine ⟨⟨x, z.off⟩, hx, rfl, ⟨a, hz.2⟩, b, ?_⟩
+  unfold wallNs at *
+  dsimp only
+  rw [c]; omega
+
+/-- non-vacuity: 2018-01-11T12:00:00.154 to 10 ms, to one day (the doc examples), at +01:00 to one day
+(the wall-clock midnight, 23:00 UTC); the last stamp of the window rounded up leaves the window and is
+still returned; `MIN_UTC` at −00:00:01 has its wall clock outside chrono's range: an error, no panic -/
+example : NDTInv ⟨dateOfYo 2018 11, ⟨43200, 154000000⟩⟩ ∧ NonLeap ⟨dateOfYo 2018 11, ⟨43200, 154000000⟩⟩ ∧
+    naive_duration .round ⟨dateOfYo 2018 11, ⟨43200, 154000000⟩⟩ ⟨0, 10000000⟩ =
+      .ok (.ok ⟨dateOfYo 2018 11, ⟨43200, 150000000⟩⟩) ∧
+    naive_duration .up ⟨dateOfYo 2018 11, ⟨43200, 154000000⟩⟩ ⟨86400, 0⟩ =
+      .ok (.ok ⟨dateOfYo 2018 12, ⟨0, 0⟩⟩) ∧
+    zoned_duration .trunc ⟨⟨dateOfYo 2018 11, ⟨43200, 154000000⟩⟩, 3600⟩ ⟨86400, 0⟩ =
+      .ok (.ok ⟨⟨dateOfYo 2018 10, ⟨82800, 0⟩⟩, 3600⟩) ∧
+    naive_duration .up ⟨dateOfYo 2262 101, ⟨85636, 854775807⟩⟩ ⟨86400, 0⟩ =
+      .ok (.ok ⟨dateOfYo 2262 102, ⟨0, 0⟩⟩) ∧
+    naive_duration .up ⟨dateOfYo 2262 102, ⟨0, 0⟩⟩ ⟨86400, 0⟩ = .ok (.err .TimestampExceedsLimit) ∧
+    ZInv ⟨NaiveDT.MIN, -1⟩ ∧
+    zoned_duration .trunc ⟨NaiveDT.MIN, -1⟩ ⟨1, 0⟩ = .ok (.err .TimestampExceedsLimit) ∧
+    naive_duration .trunc NaiveDT.MAX ⟨0, 0⟩ = .ok (.err .DurationExceedsLimit) := by decide +kernel
+
+/-- **The clauses of the property on the returned `NaiveDateTime`** (input outside a leap second).
+Whenever the call returns `Ok(v)`: the span is in `1 ..= i64::MAX` ns and the input in the window; the
+timestamp `m` of `v` is a multiple of the span, less than one span from the input's `w`, on the right
+side (`trunc`: not after, `round_up`: not before, `round`: at most half a span, a tie up); the value
+is returned unchanged exactly when `w` is a multiple; and the operation is idempotent — unless the
+result has left the 64-bit window (rounding up from the last 23:47:16 of the window), in which case
+the second call reports `TimestampExceedsLimit`. -/
+theorem naive_result_properties (op : Op) (dt v : NaiveDT) (dur : Delta) (hdt : NDTInv dt)
+    (hnl : NonLeap dt) (hd : DInv dur) (h : naive_duration op dt dur = .ok (.ok v)) :
+    (0 < ns dur ∧ ns dur ≤ 9223372036854775807) ∧ InI64 (instNs dt) ∧
+    ns dur ∣ instNs v ∧ -(ns dur) < instNs v - instNs dt ∧ instNs v - instNs dt < ns dur ∧
+    (op = .trunc → instNs v ≤ instNs dt) ∧ (op = .up → instNs dt ≤ instNs v) ∧
+    (op = .round → 2 * (instNs v - instNs dt) ≤ ns dur ∧ -(ns dur) < 2 * (instNs v - instNs dt)) ∧
+    (ns dur ∣ instNs dt ↔ v = dt) ∧
+    naive_duration op v dur =
+      if InI64 (instNs v) then .ok (.ok v) else .ok (.err .TimestampExceedsLimit) := by
+  obtain ⟨hg, hs, hm, hz⟩ := naive_ok_inv op dt v dur hdt hd h
+  obtain ⟨a, b, c⟩ := moved_nonleap dt v _ hnl hm
+  have hc : instNs v = specOf (kindOf op) (instNs dt) (ns dur) := by rw [c]; omega
+  obtain ⟨c1, c2, c3, c4, c5, c6, c7, c8⟩ := spec_corollaries op (instNs dt) (ns dur) hg.1
+  rw [← hc] at c1 c2 c3 c4 c5 c6 c7
+  refine ⟨hg, (stampOk_strict dt (strict_of_nonleap dt hdt hnl)).mp hs, c1, c2, c3, c4, c5, c6,
+    ⟨fun hdv => hz (by rw [← hc]; exact c7.mp hdv), fun e => c7.mpr (by rw [e])⟩, ?_⟩
+  obtain ⟨_, e2, e3⟩ := naive_result op v dur a b hd
+  by_cases hin : InI64 (instNs v)
+  · rw [if_pos hin]
+    obtain ⟨x, hx, _, _, _, _⟩ := e3 hg hin
+    obtain ⟨_, _, _, hz'⟩ := naive_ok_inv op v x dur a hd hx
+    rw [hx, hz' (by rw [hc]; exact c8)]
+  · rw [if_neg hin]; exact e2 hg hin
+
+/-- **… and on the returned `DateTime<FixedOffset>`**, with the wall-clock timestamp `wallNs`; the
+offset is kept -/
+theorem zoned_result_properties (op : Op) (z v : Zoned) (dur : Delta) (hz : ZInv z)
+    (hnl : NonLeap z.utc) (hd : DInv dur) (h : zoned_duration op z dur = .ok (.ok v)) :
+    (0 < ns dur ∧ ns dur ≤ 9223372036854775807) ∧ InI64 (wallNs z) ∧ v.off = z.off ∧
+    ns dur ∣ wallNs v ∧ -(ns dur) < wallNs v - wallNs z ∧ wallNs v - wallNs z < ns dur ∧
+    (op = .trunc → wallNs v ≤ wallNs z) ∧ (op = .up → wallNs z ≤ wallNs v) ∧
+    (op = .round → 2 * (wallNs v - wallNs z) ≤ ns dur ∧ -(ns dur) < 2 * (wallNs v - wallNs z)) ∧
+    (ns dur ∣ wallNs z ↔ v = z) ∧
+    zoned_duration op v dur =
+      if InI64 (wallNs v) then .ok (.ok v) else .ok (.err .TimestampExceedsLimit) := by
+  obtain ⟨hg, hs, hoff, hm, hzero⟩ := zoned_ok_inv op z v dur hz hd h
+  obtain ⟨a, b, c⟩ := moved_nonleap z.utc v.utc _ hnl hm
+  have hf := hz.1.2.2.2
+  have hwall : wallSecs z * 1000000000 + z.utc.time.frac = wallNs z := by
+    unfold wallSecs wallNs instNs; omega
+  have hin : InI64 (wallNs z) := by
+    rw [← hwall]; exact (stampOk_nonleap _ _ hf.1 hnl).mp hs
+  have hc : wallNs v = specOf (kindOf op) (wallNs z) (ns dur) := by
+    unfold wallNs at *; rw [c, hoff]; omega
+  obtain ⟨c1, c2, c3, c4, c5, c6, c7, c8⟩ := spec_corollaries op (wallNs z) (ns dur) hg.1
+  rw [← hc] at c1 c2 c3 c4 c5 c6 c7
+  have hzv : ZInv v := ⟨a, by rw [hoff]; exact hz.2⟩
+  refine ⟨hg, hin, hoff, c1, c2, c3, c4, c5, c6,
+    ⟨fun hdv => hzero (by rw [← hc]; exact c7.mp hdv), fun e => c7.mpr (by rw [e])⟩, ?_⟩
+  obtain ⟨_, e2, e3⟩ := zoned_result op v dur hzv b hd
+  by_cases hin' : InI64 (wallNs v)
+  · rw [if_pos hin']
+    obtain ⟨x, hx, _, _, _, _⟩ := e3 hg hin'
+    obtain ⟨_, _, _, _, hz'⟩ := zoned_ok_inv op v x dur hzv hd hx
+    rw [hx, hz' (by rw [hc]; exact c8)]
+  · rw [if_neg hin']; exact e2 hg hin'
+
+/-- idempotent inside the window; the one way out of it -/
+example : naive_duration .round ⟨dateOfYo 2018 11, ⟨43200, 150000000⟩⟩ ⟨0, 10000000⟩ =
+      .ok (.ok ⟨dateOfYo 2018 11, ⟨43200, 150000000⟩⟩) ∧
+    zoned_duration .trunc ⟨⟨dateOfYo 2018 10, ⟨82800, 0⟩⟩, 3600⟩ ⟨86400, 0⟩ =
+      .ok (.ok ⟨⟨dateOfYo 2018 10, ⟨82800, 0⟩⟩, 3600⟩) ∧
+    ¬ InI64 (instNs ⟨dateOfYo 2262 102, ⟨0, 0⟩⟩) := by decide +kernel
 
 /-- `span_for_digits` (table re-extracted from the source on every run) is 10^(9 − min 9 digits)
 for every digit count -/
